@@ -322,9 +322,25 @@ class Checker:
         bad = [(u[1], u[2]) for ((f, u), c) in ends if u[2] is not None and u[1] != u[2]]
         rep.ob('R16.2', fi, 'cost node == parent node at iteration end', not bad,
                'an iteration can end with cost taken from %s but parent set to %s' % (bad[0] if bad else ('', '')), line=g.loop.lineno)
-        noparent = [1 for ((f, u), c) in ends if u[2] is None and u[0] >= 1]
+        # a node may be inserted without a parent only when the query returned no neighbour at all (the empty-tree branch)
+        noparent = [(f, u) for ((f, u), c) in ends if u[2] is None and u[0] >= 1]
         if noparent:
             rep.note('a path inserts a node without a parent (only reachable when the tree is empty: dead branch `len(nearest) == 0`)')
+
+        def empty_fact(facts):
+            for (truth, text, _names) in facts:
+                t_ = text.replace(' ', '')
+                if truth is True and (t_.startswith('len(') and t_.endswith(')==0')):
+                    return True
+                if truth is False and ((t_.startswith('len(') and (t_.endswith(')>0') or t_.endswith(')!=0') or t_.endswith(')>=1'))) or t_.isidentifier()):
+                    return True
+                if truth is True and t_.startswith('not') and t_[3:].isidentifier():
+                    return True
+            return False
+        bad_np = [f for (f, u) in noparent if not empty_fact(f)]
+        rep.ob('R16.2', fi, 'a node is inserted without a parent only when the neighbour query came back empty', not bad_np,
+               'an iteration can insert the new node without giving it a parent although the tree returned a nearest neighbour: the node (and '
+               'everything attached to it later) does not reach the root', line=g.loop.lineno)
         n_sp = 0
         for key, (ok, line, msg) in sorted(sink.items()):
             rule, construct = key
@@ -478,6 +494,35 @@ class Checker:
         ok = any(isinstance(c, ast.Call) and isinstance(c.func, ast.Attribute) and c.func.attr == 'generalGenerateTree' for c in ast.walk(gt.node))
         rep.ob('R16.6', gt, 'generateTree delegates to generalGenerateTree', ok, 'default tree method bypasses the checked growth loop')
 
+    def index_layout(self):
+        """R16.9: the spatial index stores and queries a node at its own position: for each supported dimensionality d the coordinate
+        tuple handed to the R-tree is the point box (p[0..d-1], p[0..d-1]) of the node's position, in place() and nearestNeighbors()."""
+        from ..engine.paths import paths_of
+        rep = self.rep
+        rep.rule('R16.9', 'R6Tree.place / nearestNeighbors hand the R-tree the point box (p[0..d-1], p[0..d-1]) of the node position for the dimensionality d of the tree')
+        n = 0
+        for meth, callee, argpos in (('place', 'self.idx.insert', 1), ('nearestNeighbors', 'self.idx.nearest', 0)):
+            fi = self.tree.methods.get(meth)
+            if fi is None:
+                raise AnalysisError('anchor vanished: R6Tree.' + meth)
+            node_p = fi.params[1]
+            for d in (6, 3):
+                want = '(' + ','.join(['%s.getPosition()[%d]' % (node_p, k) for k in range(d)] * 2) + ')'
+                ps = paths_of(fi.node, fi.params, consts={'self.dimension': d})
+                sites = [(ev, pth) for pth in ps for ev in pth.calls(lambda t: t == callee)]
+                rep.ob('R16.9', fi, '%s: index call reached for dimension %d' % (meth, d), bool(sites),
+                       '%s makes no %s call when the tree has dimension %d' % (meth, callee, d), shape=True)
+                for ev, pth in sites:
+                    n += 1
+                    got = ev[2][argpos] if len(ev[2]) > argpos else '?'
+                    rep.ob('R16.9', fi, '%s (dimension %d): coordinates = position twice' % (meth, d), got == want,
+                           'a %d-dimensional tree is given the box %s; expected the point box of the node position %s (the index then stores / searches '
+                           'the wrong place or rejects the call)' % (d, got[:120], want[:60] + '...'), line=ev[3])
+                    if meth == 'place':
+                        rep.ob('R16.9', fi, 'place (dimension %d): the node itself is the stored object' % d, len(ev[2]) >= 3 and ev[2][2] == node_p,
+                               'object stored in the index is %s' % (ev[2][2] if len(ev[2]) >= 3 else '?'), line=ev[3])
+        rep.floor('R16.9', 'index calls examined', n, 4)
+
     def progress(self):
         rep = self.rep
         rep.rule('R16.7', 'progress display: divisor is >= 1 for every budget >= 1 (or the division is guarded)')
@@ -549,4 +594,5 @@ def check(model, rep):
     ck.growth()
     ck.bookkeeping()
     ck.extraction()
+    ck.index_layout()
     ck.progress()
